@@ -1,6 +1,272 @@
 package main
 
-import "golang.org/x/tools/go/ssa"
+// Float lemmas: identities between a float computation over integer leaves ("float island") and a closed integer form,
+// proved on every run in the FloatingPoint + BitVector theories (cvc5 decides them; both z3 versions usually time out).
+//
+//   //@ float_lemma ceil_two_thirds
+//   //@   props C03
+//   //@   shape toint:uint32(ceil(div(mul(fromint:int(#0),const:2),const:3)))
+//   //@   equals (2*leaf0 + 2) / 3
+//   //@   range 0 <= leaf0 && leaf0 < 65536
+//
+// The shape is what the executor derives from the real SSA (Convert/BinOp/math.Ceil instructions); if the code changes,
+// the shape no longer matches and the conversion result stays uninterpreted, so dependent obligations fail.
+
+import (
+	"fmt"
+	"go/ast"
+	"go/parser"
+	"go/token"
+	"strconv"
+	"strings"
+
+	"golang.org/x/tools/go/ssa"
+)
+
+type FloatLemma struct {
+	Name   string
+	Pkg    string
+	Where  string
+	Props  []string
+	Shape  string
+	Equals string
+	Range  string
+	used   bool
+}
 
 func (x *Exec) useFloatLemma(fr *Frame, st *State, v *ssa.Convert, shape string, leaves []string, r string) {
+	for _, fl := range x.eng.cs.FloatLemmas {
+		if strings.ReplaceAll(fl.Shape, " ", "") != shape {
+			continue
+		}
+		fl.used = true
+		names := map[string]Val{}
+		for i, l := range leaves {
+			names[fmt.Sprintf("leaf%d", i)] = Val{K: KInt, T: typesUntypedInt, S: l}
+		}
+		env := &SpecEnv{x: x, fr: fr, st: st, old: st, names: names, pkg: fl.Pkg}
+		rng, err1 := parseSpecExpr(fl.Range)
+		eq, err2 := parseSpecExpr(fl.Equals)
+		if err1 != nil || err2 != nil {
+			panic(oos("float lemma %s: cannot parse range/equals", fl.Name))
+		}
+		st.assume(sImp(env.evalBool(rng).S, sEq(r, env.eval(eq).S)))
+		x.note("float lemma " + fl.Name + " (proved in FP+BV on every run) gives meaning to the float->int conversion at " + x.where(v))
+		return
+	}
+	x.note("float->int conversion at " + x.where(v) + " has no matching float lemma: its result is uninterpreted (shape " + shape + ")")
+}
+
+// ---------- proving a float lemma ----------
+
+type shapeNode struct {
+	op   string
+	arg  string // type for fromint/toint, value for const, leaf index
+	kids []*shapeNode
+}
+
+func parseShape(s string) (*shapeNode, error) {
+	s = strings.ReplaceAll(s, " ", "")
+	n, rest, err := parseShapeRec(s)
+	if err != nil {
+		return nil, err
+	}
+	if rest != "" {
+		return nil, fmt.Errorf("trailing %q", rest)
+	}
+	return n, nil
+}
+
+func parseShapeRec(s string) (*shapeNode, string, error) {
+	if strings.HasPrefix(s, "#") {
+		j := 1
+		for j < len(s) && s[j] >= '0' && s[j] <= '9' {
+			j++
+		}
+		return &shapeNode{op: "leaf", arg: s[1:j]}, s[j:], nil
+	}
+	i := strings.IndexAny(s, "(,)")
+	head := s
+	if i >= 0 {
+		head = s[:i]
+	}
+	n := &shapeNode{op: head}
+	if c := strings.Index(head, ":"); c >= 0 {
+		n.op, n.arg = head[:c], head[c+1:]
+	}
+	if i < 0 || s[i] != '(' {
+		if i < 0 {
+			return n, "", nil
+		}
+		return n, s[i:], nil
+	}
+	rest := s[i+1:]
+	for {
+		k, r, err := parseShapeRec(rest)
+		if err != nil {
+			return nil, "", err
+		}
+		n.kids = append(n.kids, k)
+		if r == "" {
+			return nil, "", fmt.Errorf("unbalanced shape")
+		}
+		if r[0] == ',' {
+			rest = r[1:]
+			continue
+		}
+		if r[0] == ')' {
+			return n, r[1:], nil
+		}
+		return nil, "", fmt.Errorf("unexpected %q", r)
+	}
+}
+
+func (n *shapeNode) fp() (string, error) {
+	switch n.op {
+	case "fromint":
+		if len(n.kids) != 1 || n.kids[0].op != "leaf" {
+			return "", fmt.Errorf("fromint needs a leaf")
+		}
+		conv := "(_ to_fp 11 53)"
+		if strings.HasPrefix(n.arg, "uint") {
+			conv = "(_ to_fp_unsigned 11 53)"
+		}
+		return fmt.Sprintf("(%s RNE leaf%s)", conv, n.kids[0].arg), nil
+	case "const":
+		f, err := strconv.ParseFloat(n.arg, 64)
+		if err != nil {
+			return "", err
+		}
+		return fpLit(f), nil
+	case "mul", "div", "add", "sub":
+		if len(n.kids) != 2 {
+			return "", fmt.Errorf("%s needs two operands", n.op)
+		}
+		a, err := n.kids[0].fp()
+		if err != nil {
+			return "", err
+		}
+		b, err := n.kids[1].fp()
+		if err != nil {
+			return "", err
+		}
+		return fmt.Sprintf("(fp.%s RNE %s %s)", n.op, a, b), nil
+	case "ceil", "floor":
+		a, err := n.kids[0].fp()
+		if err != nil {
+			return "", err
+		}
+		mode := "RTP"
+		if n.op == "floor" {
+			mode = "RTN"
+		}
+		return fmt.Sprintf("(fp.roundToIntegral %s %s)", mode, a), nil
+	}
+	return "", fmt.Errorf("unknown shape operator %q", n.op)
+}
+
+func (n *shapeNode) leaves(set map[string]bool) {
+	if n.op == "leaf" {
+		set[n.arg] = true
+	}
+	for _, k := range n.kids {
+		k.leaves(set)
+	}
+}
+
+// bvExpr translates an integer spec expression over leafN into 64-bit bit-vector arithmetic
+func bvExpr(e ast.Expr) (string, error) {
+	switch v := e.(type) {
+	case *ast.ParenExpr:
+		return bvExpr(v.X)
+	case *ast.Ident:
+		if strings.HasPrefix(v.Name, "leaf") {
+			return v.Name, nil
+		}
+		return "", fmt.Errorf("unknown identifier %s", v.Name)
+	case *ast.BasicLit:
+		n, err := strconv.ParseInt(v.Value, 0, 64)
+		if err != nil {
+			return "", err
+		}
+		return fmt.Sprintf("(_ bv%d 64)", n), nil
+	case *ast.BinaryExpr:
+		a, err := bvExpr(v.X)
+		if err != nil {
+			return "", err
+		}
+		b, err := bvExpr(v.Y)
+		if err != nil {
+			return "", err
+		}
+		op := map[token.Token]string{token.ADD: "bvadd", token.SUB: "bvsub", token.MUL: "bvmul", token.QUO: "bvsdiv", token.REM: "bvsrem",
+			token.LSS: "bvslt", token.LEQ: "bvsle", token.GTR: "bvsgt", token.GEQ: "bvsge", token.EQL: "=", token.LAND: "and", token.LOR: "or"}[v.Op]
+		if op == "" {
+			return "", fmt.Errorf("unsupported operator %s", v.Op)
+		}
+		return fmt.Sprintf("(%s %s %s)", op, a, b), nil
+	}
+	return "", fmt.Errorf("unsupported expression %T", e)
+}
+
+func (eng *Engine) verifyFloatLemma(fl *FloatLemma, timeoutMs int) *FuncResult {
+	key := "floatlemma:" + fl.Pkg + "." + fl.Name
+	res := &FuncResult{Key: key, Where: fl.Where}
+	x := newExec(eng, nil, nil, key, -1)
+	res.x, res.decls = x, x.decls
+	o := &Oblig{Name: key + "#identity", Kind: "float-lemma", Fn: key, Where: fl.Where, Goal: atom("false")}
+	res.Obs = []*Oblig{o}
+	fail := func(msg string) *FuncResult {
+		o.Res = SolveResult{Status: "sat", Solver: "none", Output: msg}
+		o.Kind = "subset"
+		o.Where = msg
+		return res
+	}
+	sh, err := parseShape(fl.Shape)
+	if err != nil {
+		return fail("bad shape: " + err.Error())
+	}
+	if sh.op != "toint" || len(sh.kids) != 1 {
+		return fail("shape must start with toint:<type>(...)")
+	}
+	body, err := sh.kids[0].fp()
+	if err != nil {
+		return fail("bad shape: " + err.Error())
+	}
+	eqE, err := parser.ParseExpr(fl.Equals)
+	if err != nil {
+		return fail("bad equals: " + err.Error())
+	}
+	rgE, err := parser.ParseExpr(fl.Range)
+	if err != nil {
+		return fail("bad range: " + err.Error())
+	}
+	rhs, err := bvExpr(eqE)
+	if err != nil {
+		return fail("equals: " + err.Error())
+	}
+	rng, err := bvExpr(rgE)
+	if err != nil {
+		return fail("range: " + err.Error())
+	}
+	set := map[string]bool{}
+	sh.leaves(set)
+	var b strings.Builder
+	b.WriteString("(set-logic ALL)\n")
+	for l := range set {
+		b.WriteString("(declare-const leaf" + l + " (_ BitVec 64))\n")
+	}
+	b.WriteString("(define-fun fr () (_ FloatingPoint 11 53) " + body + ")\n")
+	b.WriteString("(assert " + rng + ")\n")
+	// Go: conversion of an in-range float to an integer type truncates toward zero
+	hi := map[string]string{"uint32": "4294967296.0", "int": "9223372036854775807.0", "int64": "9223372036854775807.0", "uint64": "9223372036854775807.0", "int32": "2147483648.0", "uint": "9223372036854775807.0"}[sh.arg]
+	if hi == "" {
+		return fail("unsupported target type " + sh.arg)
+	}
+	hf, _ := strconv.ParseFloat(hi, 64)
+	goal := fmt.Sprintf("(and (fp.leq %s fr) (fp.lt fr %s) (= ((_ fp.to_sbv 64) RTZ fr) %s))", fpLit(0), fpLit(hf), rhs)
+	b.WriteString("(assert (not " + goal + "))\n(check-sat)\n")
+	o.raw = b.String()
+	o.timeout = 90000
+	return res
 }
